@@ -96,7 +96,7 @@ def upJson (u : UpUrl) : Json :=
     ("query", jstr (outStr u.query))]
 
 /-- answer to one lookup; second component: 0 = no rule, 1 = default rule, 2 = regular rule -/
-def answer (s : Repo) (hasDr : Bool) (q : ReqView) (rawQuery : String) : Json × Nat :=
+def answer (s : Repo) (hasDr : Bool) (q : ReqView) (rawQuery : String) (proxy : Bool := false) : Json × Nat :=
   let sv := s.serve hasDr q
   match sv.rule, sv.exec with
   | some (src, rid), some ex =>
@@ -113,6 +113,10 @@ def answer (s : Repo) (hasDr : Bool) (q : ReqView) (rawQuery : String) : Json ×
         ++ (if ver > 0 then [("ver", jstr (toString ver))] else [])
         ++ (match s.upstream hasDr q rawQuery with
             | some u => [("up", upJson u)]
+            | none => [])
+        -- the request target the proxy service writes to the upstream connection (cases carrying `"proxy": true`)
+        ++ (match (if proxy then s.sent hasDr q rawQuery else none) with
+            | some t => [("sent", jstr (outStr t))]
             | none => [])), kind)
   | _, _ => (Json.mkObj [("rule", Json.null), ("err", jstr "norule")], 0)
 
@@ -143,6 +147,7 @@ def run (c : Json) : E Json := do
   let hasDr := boolD c "dr" false
   let drBt := hasDr && boolD c "dr_bt" false
   let both := boolD c "envoy" false
+  let proxy := boolD c "proxy" false
   let mut s := Repo.empty
   let mut out : List Json := []
   let mut multi := 0
@@ -158,7 +163,7 @@ def run (c : Json) : E Json := do
       | none => out := out ++ [withEnvoy both (Json.mkObj [("badrequest", Json.bool true)]) je]
       | some q =>
         if (cands s.index (tokenize (lookupPath q)) []).length ≥ 2 then multi := multi + 1
-        let (j, kind) := answer s hasDr q query
+        let (j, kind) := answer s hasDr q query proxy
         if kind == 1 then dflt := dflt + 1
         if kind == 2 then matched := matched + 1
         if (s.upstream hasDr q query).isSome then fwd := fwd + 1
